@@ -2,6 +2,7 @@
 import re
 from . import suite, gen_lex, gen_prog
 from .propbase import *
+from . import basesuites
 
 TOK = re.compile(r"\(tok (\([A-Za-z]+ [^)]*\)|[A-Za-z]+) #([0-9a-f]*) (\d+) (\d+) (\d+) (\d+) (\d+)\) \(post (\d+) (\d+) (\d+)\)")
 
@@ -44,6 +45,7 @@ def check_positions(text, result):
 
 def run(chk):
     proved = setup(chk, "C12")
+    basesuites.run_uni(chk)
     rng = rng_for(chk, 12)
     quick = chk.tier == "quick"
     texts = list(gen_lex.exhaustive(3 if quick else 4))
